@@ -12,7 +12,12 @@ Inductive case :=
   | Stream (chunks : list bytes) (sent : list bytes) (complete : bool) (truncated : bool)
            (got : list bytes) (err : bool) (eof_err : bool) (rest_len : N) (chunk_indep : bool)
   | CapRaw (kindb : N) (ok : bool) (writable : bool) (back_kind : N)
-  | Ticket (roundtrip_ok : bool) (hostile_panicked : bool) (empty_nodes_rejected : bool).
+  | Ticket (roundtrip_ok : bool) (hostile_panicked : bool) (empty_nodes_rejected : bool)
+  (* a text fed to the FromStr of a key type: verdict 0 = Err, 1 = Ok (out = the key's bytes), 2 = panic.
+     strict: secret-key types (every 32 bytes are a key); otherwise a public-key type, which may also
+     refuse 32 bytes that are no curve point. orig: non-empty when the text is the Display form of a
+     real key with these bytes *)
+  | KeyText (strict : bool) (text : bytes) (verdict : N) (out : bytes) (orig : bytes).
 
 Definition recode (k : kind) (b : bytes) : option (bytes * bytes) :=
   match k with
@@ -61,4 +66,15 @@ Definition check (c : case) : N :=
                 end in
       bit (negb m1) 1
   | Ticket rt panicked empty_rejected => bit (negb rt || panicked || negb empty_rejected) 2
+  | KeyText strict text verdict out orig =>
+      let m1 := match key_of_text text with
+                | None => verdict =? 0
+                | Some b => if strict then (verdict =? 1) && bytes_eqb b out
+                            else (verdict =? 0) || ((verdict =? 1) && bytes_eqb b out)
+                end in
+      let m2 := match orig with
+                | [] => true
+                | _ => (verdict =? 1) && bytes_eqb out orig && bytes_eqb text (hex_encode orig)
+                end in
+      bit (negb m1 && negb (verdict =? 2)) 1 + bit ((verdict =? 2) || negb m2) 2
   end.
